@@ -804,7 +804,7 @@ def history_case(rng, nops=None):
 
 def cases(rng, tier):
     B(); classes()
-    n = 2400 if tier == 'thorough' else 420
+    n = 2400 if tier == 'thorough' else 400
     out = [history_case(rng) for _ in range(n)]
     bench().clear()
     return out
@@ -1116,6 +1116,34 @@ def run_direct_history(hs, failures, stats, stop_at=None, verbose=False):
     bn.clear()
 
 
+def canonical_known(failures, stats):
+    """canonical replay of known finding C15-grow-constructed-array (reported on every run while it still fails)"""
+    e = B()
+    P, C, A = e['P'], e['C'], e['A']
+    bn = bench()
+    bn.clear()
+    cls, M = classes()['accessRights']
+    dt = M._properties['positiveAccessRules'].datatype
+    obj = M(objectIdentifier=('accessRights', 10), objectName='accessRights-10', positiveAccessRules=dt([]))
+    bn.add(obj)
+    req = A.WritePropertyRequest(objectIdentifier=obj.objectIdentifier, propertyIdentifier='positiveAccessRules')
+    req.propertyValue = make_any([P.Unsigned(2)])
+    req.propertyArrayIndex = 0
+    io, _ = bn.exchange(req)
+    rep = c_reply(bn, io)
+    _, r0 = rp(bn, obj.objectIdentifier, 'positiveAccessRules', 0)
+    _, r2 = rp(bn, obj.objectIdentifier, 'positiveAccessRules', 2)
+    _, ra = rp(bn, obj.objectIdentifier, 'positiveAccessRules', None)
+    stats['evaluations'] += 4
+    v = snap(bn)[oid_num(obj.objectIdentifier)]['positiveAccessRules']
+    if rep == [0] and (r2[0] != 1 or ra[0] != 1):
+        failures.append({'kind': 'grown-array-unreadable', 'canonical': True,
+                         'known_grow': grown_default_unencodable(M._properties['positiveAccessRules'], v, 2),
+                         'op': {'op': 'write', 'oid': ['accessRights', 10], 'pid': 'positiveAccessRules', 'idx': 0, 'value': 'length 2'},
+                         'replies': [rep, r0[:8], r2[:3], ra[:3]]})
+    bn.clear()
+
+
 def direct(rng, tier, focus=()):
     import collections
     B(); classes()
@@ -1126,6 +1154,7 @@ def direct(rng, tier, focus=()):
     for hs in seeds:
         run_direct_history(hs, failures, stats)
         stats['histories'] += 1
+    canonical_known(failures, stats)
     stats['replies'] = dict(stats['replies'])
     stats['distinct_nontrivial'] = stats['acked']
     stats['samples'] = [{'direct': 'history', 'seed': seeds[0]}]
